@@ -134,6 +134,8 @@ func (t *Tokenizer) Load(r io.Reader, handler oj.TokenHandler) (err error) {
 		} else {
 			t.tokenizeBuffer(buf, eof)
 		}
+		// Keep the offset of the last newline relative to the next buffer.
+		t.noff -= len(buf) - skip
 		skip = 0
 		if eof {
 			break
